@@ -87,7 +87,8 @@ LeafShapeOps == {"leaf-with-children", "type-missing"}
 StructShapeOps == {"struct-empty", "struct-with-value", "struct-with-leaf-type-and-value"}
 \* the node's own kind (JSON)
 JsonNodeOps == {"node-array", "node-string", "node-number", "node-null", "node-true", "node-empty-object"}
-JsonMemberOps == {"tag-number", "tag-null", "tag-array", "type-number", "type-null", "type-array", "dup-key-tag", "dup-key-value", "dup-key-type", "extra-key", "keys-reordered"}
+JsonMemberOps == {"tag-number", "tag-null", "tag-array", "type-number", "type-null", "type-array", "dup-key-tag", "dup-key-value", "dup-key-type", "extra-key", "keys-reordered",
+                  "key-case-variants-tag", "key-case-variants-type", "key-case-variants-value", "keys-uppercase"}
 JsonLeafValueOps == {"value-null", "value-bool", "value-number", "value-quoted-number", "value-array", "value-object", "value-array-of-scalars", "value-nested-arrays"}
 JsonStructValueOps == {"value-null", "value-string", "value-number", "value-object", "value-array-of-scalars", "value-array-with-null", "value-nested-arrays"}
 JsonTextOps == {"truncate-at-node", "trailing-garbage", "trailing-second-document", "empty-document", "whitespace-document", "bom", "bare-nan", "single-quotes", "trailing-comma", "deep-nesting"}
